@@ -6,74 +6,69 @@ import Miden.Lemmas.HonestAir2
 namespace Miden.C03
 open Miden Miden.Air Miden.Vm
 
+set_option maxHeartbeats 1000000 in
 theorem honest_and (vm vm' : Vm) (hl : 16 ≤ vm.stack.length) (h : vm.step .and = .ok vm') :
     HonestHolds vm vm' .and := by
-  intro b1 b1' h0 h0' opn hlpn hh hb
-  obtain ⟨x0, x1, x2, x3, x4, x5, x6, x7, x8, x9, x10, x11, x12, x13, x14, x15, t, hs⟩ := split16 _ hl
-  simp only [step, stepCore, hs] at h
-  split at h
-  · cases h
-  · split at h
-    · cases h
+  honest_intro
+  split at hcore
+  · cases hcore
+  · split at hcore
+    · cases hcore
     · rename_i hb0 ha0
-      cases h
+      cases hcore
       have e0 : x0 = 0 ∨ x0 = 1 := by omega
       have e1 : x1 = 0 ∨ x1 = 1 := by omega
       rcases e0 with rfl | rfl <;> rcases e1 with rfl | rfl <;> rcases t with _ | ⟨t0, t⟩ <;>
         honest_simp <;> honest_close
 
+set_option maxHeartbeats 1000000 in
 theorem honest_or (vm vm' : Vm) (hl : 16 ≤ vm.stack.length) (h : vm.step .or = .ok vm') :
     HonestHolds vm vm' .or := by
-  intro b1 b1' h0 h0' opn hlpn hh hb
-  obtain ⟨x0, x1, x2, x3, x4, x5, x6, x7, x8, x9, x10, x11, x12, x13, x14, x15, t, hs⟩ := split16 _ hl
-  simp only [step, stepCore, hs] at h
-  split at h
-  · cases h
-  · split at h
-    · cases h
+  honest_intro
+  split at hcore
+  · cases hcore
+  · split at hcore
+    · cases hcore
     · rename_i hb0 ha0
-      cases h
+      cases hcore
       have e0 : x0 = 0 ∨ x0 = 1 := by omega
       have e1 : x1 = 0 ∨ x1 = 1 := by omega
       rcases e0 with rfl | rfl <;> rcases e1 with rfl | rfl <;> rcases t with _ | ⟨t0, t⟩ <;>
         honest_simp <;> honest_close
 
+set_option maxHeartbeats 1000000 in
 theorem honest_not (vm vm' : Vm) (hl : 16 ≤ vm.stack.length) (h : vm.step .not = .ok vm') :
     HonestHolds vm vm' .not := by
-  intro b1 b1' h0 h0' opn hlpn hh hb
-  obtain ⟨x0, x1, x2, x3, x4, x5, x6, x7, x8, x9, x10, x11, x12, x13, x14, x15, t, hs⟩ := split16 _ hl
-  simp only [step, stepCore, hs] at h
-  split at h
-  · cases h
+  honest_intro
+  split at hcore
+  · cases hcore
   · rename_i ha0
-    cases h
+    cases hcore
     have e0 : x0 = 0 ∨ x0 = 1 := by omega
     rcases e0 with rfl | rfl <;> rcases t with _ | ⟨t0, t⟩ <;> honest_simp <;> honest_close
 
+set_option maxHeartbeats 1000000 in
 theorem honest_cswap (vm vm' : Vm) (hl : 16 ≤ vm.stack.length) (h : vm.step .cswap = .ok vm') :
     HonestHolds vm vm' .cswap := by
-  intro b1 b1' h0 h0' opn hlpn hh hb
-  obtain ⟨x0, x1, x2, x3, x4, x5, x6, x7, x8, x9, x10, x11, x12, x13, x14, x15, t, hs⟩ := split16 _ hl
-  simp only [step, stepCore, hs] at h
-  split at h
-  · rename_i hc; subst hc; cases h
+  honest_intro
+  split at hcore
+  · rename_i hc0; subst hc0; cases hcore
     rcases t with _ | ⟨t0, t⟩ <;> honest_simp <;> honest_close
-  · split at h
-    · rename_i _ hc; subst hc; cases h
+  · split at hcore
+    · rename_i _ hc1; subst hc1; cases hcore
       rcases t with _ | ⟨t0, t⟩ <;> honest_simp <;> honest_close
-    · cases h
+    · cases hcore
 
+set_option maxHeartbeats 1000000 in
 theorem honest_cswapw (vm vm' : Vm) (hl : 16 ≤ vm.stack.length) (h : vm.step .cswapw = .ok vm') :
     HonestHolds vm vm' .cswapw := by
-  intro b1 b1' h0 h0' opn hlpn hh hb
-  obtain ⟨x0, x1, x2, x3, x4, x5, x6, x7, x8, x9, x10, x11, x12, x13, x14, x15, t, hs⟩ := split16 _ hl
-  simp only [step, stepCore, hs] at h
-  split at h
-  · rename_i hc; subst hc; cases h
+  honest_intro
+  split at hcore
+  · rename_i hc0; subst hc0; cases hcore
     rcases t with _ | ⟨t0, t⟩ <;> honest_simp <;> honest_close
-  · split at h
-    · rename_i _ hc; subst hc; cases h
+  · split at hcore
+    · rename_i _ hc1; subst hc1; cases hcore
       rcases t with _ | ⟨t0, t⟩ <;> honest_simp <;> honest_close
-    · cases h
+    · cases hcore
 
 end Miden.C03
